@@ -20,7 +20,7 @@ for d in sorted(os.listdir(root)):
     first = hist[0] if hist else {"caught_by": m.get("caught_by")}
     fc = ", ".join(first.get("caught_by") or []) or "missed"
     now = ", ".join(m.get("caught_by") or []) or "**missed**"
-    print("| %s%s | %s | %s | %s | %s |" % (d, "" if m.get("confirmed") else " (not re-confirmed)", ", ".join("`%s`" % f.split("/")[-1] for f in files), needs, fc, now))
+    print("| %s%s | %s | %s | %s | %s |" % (d, "" if m.get("confirmed") else (" (not kept: an existing test fails with it)" if m.get("rejected") else " (not re-confirmed)"), ", ".join("`%s`" % f.split("/")[-1] for f in files), needs, fc, now))
 
 sys.stdout = _out
 table = _buf.getvalue().strip()
